@@ -567,8 +567,14 @@ class Process(StateMachine, persistence.Savable, metaclass=ProcessStateMachineMe
         exception: Optional[BaseException],
         trace: Optional[TracebackType],
     ) -> None:
-        if self.state != process_states.ProcessState.EXCEPTED:
-            self.fail(exception, trace)
+        if self.has_terminated():
+            # Too late to fail the process, a terminal state is final
+            self.logger.error(
+                'Process<%s>: callback excepted after the process had terminated: %s', self.pid, exception
+            )
+            return
+
+        self.fail(exception, trace)
 
     @contextlib.contextmanager
     def _process_scope(self) -> Generator[None, None, None]:
@@ -1089,6 +1095,10 @@ class Process(StateMachine, persistence.Savable, metaclass=ProcessStateMachineMe
     ) -> None:
         # If we are creating, then reraise instead of failing.
         if final_state == process_states.ProcessState.CREATED:
+            raise exception.with_traceback(trace)
+
+        # A terminal state that had been entered before this transition is final: refuse, do not fail over to EXCEPTED
+        if self._state is not None and self._state.is_terminal() and self._state.LABEL == initial_state:
             raise exception.with_traceback(trace)
 
         new_state = self._create_state_instance(
